@@ -1,3 +1,46 @@
-import Mqtt5V.Basic
+import Mqtt5V.Gen.Timing
+/-! # C12 — keep-alive: PINGREQ every negotiated interval; 1.5 × silence means reconnect (timing rules)
+
+The three expressions that decide the behaviour are *translated* from the source on every run
+(`Gen.Timing`: `compute_read_timeout`, `ping_op::compute_wait_time`, `negotiated_keep_alive`).  For every
+keep-alive value K (uint16) and every Server Keep Alive override: -/
 namespace Mqtt5V.Props.C12
+open Mqtt5V.Gen.Timing
+
+/-- the negotiated keep-alive is the broker's Server Keep Alive if present, else the configured value -/
+theorem negotiated_rule (ska : Option Nat) (cfg : Nat) :
+    negotiated ska cfg = (match ska with | some k => k | none => cfg) := by
+  cases ska <;> rfl
+
+/-- **the connection is abandoned after exactly 1.5 · K seconds of silence** (K > 0): the timed read is started with
+a time-out of 1500 · K ms (never less) -/
+theorem read_timeout_is_one_and_a_half_keepalive (k : Nat) (hk : 0 < k) : readTimeoutMs k = some (1500 * k) := by
+  unfold readTimeoutMs
+  have : ¬ k = 0 := by omega
+  simp only [this, if_false, Option.some.injEq]
+  omega
+
+/-- **a PINGREQ is due exactly K seconds** after the session refresh / the previous PINGREQ's completion (K > 0) -/
+theorem ping_period_is_keepalive (k : Nat) (hk : 0 < k) : pingWaitMs k = some (1000 * k) := by
+  unfold pingWaitMs
+  have : ¬ k = 0 := by omega
+  simp only [this, if_false, Option.some.injEq]
+  omega
+
+/-- **K = 0: no PINGREQ, and the broker is never timed out** -/
+theorem keepalive_zero_is_silent : pingWaitMs 0 = none ∧ readTimeoutMs 0 = none := ⟨rfl, rfl⟩
+
+/-- the ping comes before the read time-out: K · 1000 < 1.5 · K · 1000 for every K > 0, so a healthy broker that
+answers each PINGREQ is never timed out by the client's own silence -/
+theorem ping_before_timeout (k : Nat) (hk : 0 < k) : ∀ p t, pingWaitMs k = some p → readTimeoutMs k = some t → p < t := by
+  intro p t hp ht
+  rw [ping_period_is_keepalive k hk] at hp
+  rw [read_timeout_is_one_and_a_half_keepalive k hk] at ht
+  simp at hp ht; omega
+
+/-- no uint16 keep-alive overflows the millisecond arithmetic of the read time-out (int: 3 · 65535 · 1000 < 2³¹) -/
+theorem read_timeout_no_overflow (k : Nat) (hk : k ≤ 65535) : 3 * k * 1000 < 2 ^ 31 := by omega
+
+example : readTimeoutMs 7 = some 10500 ∧ pingWaitMs 7 = some 7000 ∧ negotiated (some 7) 60 = 7 ∧ negotiated none 60 = 60 := by decide
+
 end Mqtt5V.Props.C12
